@@ -226,6 +226,9 @@ var (
 
 func verifKCPRemoteAddr(s *kcp.UDPSession) net.Addr { return verifSessionCID }
 func verifSmuxServer(conn io.ReadWriteCloser, cfg *smux.Config) (*smux.Session, error) {
+	// C05: a session may lose its carrier for up to the retention time of the client map and
+	// must then continue; the session layer therefore must not give up on a silent peer earlier
+	verifapi.Assert(cfg != nil && cfg.KeepAliveTimeout >= clientMapTimeout, "C05: the session layer tolerates silence for at least the carrier retention time (one minute)")
 	if verifapi.Bool("smux.fails") {
 		return nil, errors.New("smux (stub)")
 	}
@@ -251,11 +254,26 @@ func verifQueueConn(l *SnowflakeListener, c net.Conn) error {
 
 func VerifC18_AcceptStreams() {
 	verifSessionCID = verifSessionID(0)
-	clientIDAddrMap.Set(verifSessionCID, ClientMapAddr("198.51.100.1:1"))
+	// what the map holds for this session when its first KCP packet arrives: the address of its
+	// carrier, "no address" (no client_ip), or nothing at all (more than capacity other sessions
+	// were recorded in between and the entry has been evicted)
+	want := ""
+	switch verifapi.Concrete(verifapi.Choice("map.entry", 3)) {
+	case 0:
+		want = "198.51.100.1:1"
+		clientIDAddrMap.Set(verifSessionCID, ClientMapAddr(want))
+	case 1:
+		clientIDAddrMap.Set(verifSessionCID, ClientMapAddr(""))
+	case 2:
+		verifapi.Cover("map entry evicted")
+	}
 	l := &SnowflakeListener{}
 	l.acceptStreams(new(kcp.UDPSession))
 	for i := 0; i < verifNQueued; i++ {
 		verifapi.Cover("stream accepted")
-		verifapi.Assert(verifQueued[i].RemoteAddr() == net.Addr(ClientMapAddr("198.51.100.1:1")), "C18: every connection of a session carries the address known when the session was established")
+		// exactly what the server binary does with an accepted connection (server.go handleConn)
+		// before it tells the bridge: conn.RemoteAddr().String()
+		told := verifQueued[i].RemoteAddr().String()
+		verifapi.Assert(told == want, "C18: every connection of a session carries the address known when the session was established, or none")
 	}
 }
